@@ -141,7 +141,7 @@ def tasks_for(tier):
                  (base + 3, 2, False, 'full', 'sphere'), (base + 4, 1, True, 'trcl', 'two'), (base + 5, 2, True, 'disp', 'slab')]
     else:
         decks = [(base + i, 1 + i % 3 if i % 3 < 2 else 2, i % 2 == 0, c05.SPELL[i % len(c05.SPELL)], ['slab', 'sphere', 'two'][i % 3])
-                 for i in range(40)]
+                 for i in range(80)]
     for dt in decks:
         for fl in combos:
             out.append((dt, fl))
